@@ -29,6 +29,9 @@ type genCase struct {
 	Options []string          `json:"options"`
 	Recurse bool              `json:"recurse"`
 	Prefix  string            `json:"prefix"` // package_prefix value ("" = none)
+	// MustAccept is set only in hand-written witnesses of fixed findings where the
+	// defect was that a valid program was rejected with a crash.
+	MustAccept bool `json:"must_accept,omitempty"`
 }
 
 func (c genCase) genArg() string {
@@ -69,6 +72,9 @@ func judge(c genCase) (string, error) {
 		return "", fmt.Errorf("harness: thriftgo timed out (C04 decides hangs)")
 	}
 	if r.Exit != 0 {
+		if c.MustAccept {
+			return stRejected, fmt.Errorf("valid program rejected (exit %d): %s", r.Exit, vt.Truncate(r.Output, 300))
+		}
 		return stRejected, nil
 	}
 	if strings.Contains(r.Output, "Recovered from panic") {
@@ -185,10 +191,11 @@ func modelCfg() idl.Cfg {
 	c.MaxFiles = 3
 	c.MaxDefs = 3
 	c.NoNamespace = true
-	if vt.Known(prop, "duplicate-throws-type") {
-		c.DistinctThrows = true
-		vt.Excluded("duplicate-throws-type")
+	if vt.Known(prop, "binary-map-key-const-ref") {
+		c.NoBinKeyConstRef = true
+		vt.Excluded("binary-map-key-const-ref")
 	}
+	c.NoZeroThrowsID = true // id 0 in a throws list is the id of `success` in the result struct
 	return c
 }
 
@@ -204,6 +211,9 @@ func crossFile(p *idl.Program) bool {
 func TestCompiles(t *testing.T) {
 	rapid.Check(t, func(rt *rapid.T) {
 		p := idl.Gen(rt, modelCfg())
+		if vt.Known(prop, "unused-import-typedef-const") && retypeCrossFileBaseTypedefConsts(p) > 0 {
+			vt.Excluded("unused-import-typedef-const")
+		}
 		c := genCase{Main: p.Files[0].Path, Files: p.Texts(nil), Backend: "go", Options: genOptions(rt), Recurse: rapid.IntRange(0, 3).Draw(rt, "recurse") > 0}
 		if rapid.IntRange(0, 3).Draw(rt, "fastgo") == 0 {
 			c.Backend = "fastgo"
@@ -211,10 +221,7 @@ func TestCompiles(t *testing.T) {
 		if rapid.Bool().Draw(rt, "prefix") {
 			c.Prefix = "vmod/gen"
 		}
-		if vt.Known(prop, "typedef-struct-no-alias") && hasOptFalse(c.Options, "use_type_alias") {
-			c.Options = dropOpt(c.Options, "use_type_alias")
-			vt.Excluded("typedef-struct-no-alias")
-		}
+		applyKnown(p, &c)
 		vt.Eval()
 		st, err := judge(c)
 		vt.Class("status:" + st)
@@ -258,6 +265,254 @@ func surveyNote(c genCase, err error) {
 		k = k[:90]
 	}
 	fmt.Fprintf(os.Stderr, "SURVEY %s | %s | %s\n", k, c.genArg(), msg)
+	if dir := os.Getenv("VERIF_SURVEY"); strings.HasPrefix(dir, "/") {
+		os.MkdirAll(dir, 0o755)
+		name := strings.Map(func(r rune) rune {
+			if r >= 'a' && r <= 'z' || r >= 'A' && r <= 'Z' {
+				return r
+			}
+			return '_'
+		}, k)
+		if len(name) > 60 {
+			name = name[:60]
+		}
+		p := filepath.Join(dir, name+".json")
+		if _, err2 := os.Stat(p); err2 != nil {
+			b, _ := json.MarshalIndent(map[string]interface{}{"case": c, "error": err.Error()}, "", " ")
+			os.WriteFile(p, b, 0o644)
+		}
+	}
+}
+
+// optOn reports the final value of a boolean option in the list (last assignment wins).
+func optOn(opts []string, name string) bool {
+	v := false
+	for _, o := range opts {
+		if o == name || o == name+"=true" {
+			v = true
+		}
+		if o == name+"=false" {
+			v = false
+		}
+	}
+	return v
+}
+
+func optValue(opts []string, name string) string {
+	v := ""
+	for _, o := range opts {
+		if strings.HasPrefix(o, name+"=") {
+			v = strings.TrimPrefix(o, name+"=")
+		}
+	}
+	return v
+}
+
+// applyKnown removes, from a drawn configuration, exactly the option x shape
+// combinations behind listed known findings (each with its own witness), so
+// that the search continues behind them.  Every removal is counted.
+func applyKnown(p *idl.Program, c *genCase) {
+	drop := func(id string, names ...string) {
+		for _, n := range names {
+			c.Options = dropOpt(c.Options, n)
+		}
+		vt.Excluded(id)
+	}
+	if vt.Known(prop, "no-type-alias-typedef") && hasOptFalse(c.Options, "use_type_alias") && !optOn(c.Options, "use_type_alias") && hasKind(p, idl.KTypedef) {
+		drop("no-type-alias-typedef", "use_type_alias")
+	}
+	if optOn(c.Options, "value_type_in_container") {
+		if c.Backend == "fastgo" && vt.Known(prop, "value-type-in-container-fastgo") && hasContainerOfStruct(p) {
+			drop("value-type-in-container-fastgo", "value_type_in_container")
+		} else if vt.Known(prop, "value-type-in-container-const") && hasStructLiteralInContainer(p) {
+			drop("value-type-in-container-const", "value_type_in_container")
+		}
+	}
+	if t := optValue(c.Options, "template"); t != "" || optOn(c.Options, "enable_nested_struct") {
+		switch {
+		case c.Backend == "fastgo" && vt.Known(prop, "fastgo-with-slim-or-raw-struct"):
+			drop("fastgo-with-slim-or-raw-struct", "template", "enable_nested_struct")
+		case t == "raw_struct" && vt.Known(prop, "raw-struct-union-default") && (hasKind(p, idl.KUnion) || hasTypedefOfStructLike(p)):
+			drop("raw-struct-union-default", "template", "enable_nested_struct")
+		case t == "raw_struct" && vt.Known(prop, "raw-struct-extends-import") && hasCrossFileExtends(p):
+			drop("raw-struct-extends-import", "template", "enable_nested_struct")
+		}
+	}
+}
+
+func hasKind(p *idl.Program, k idl.Kind) bool {
+	for _, f := range p.Files {
+		for _, d := range f.Defs {
+			if d.Kind == k {
+				return true
+			}
+		}
+	}
+	return false
+}
+
+func hasTypedefOfStructLike(p *idl.Program) bool {
+	for _, f := range p.Files {
+		for _, d := range f.Defs {
+			if d.Kind == idl.KTypedef && structLike(d.Type) {
+				return true
+			}
+		}
+	}
+	return false
+}
+
+// retypeCrossFileBaseTypedefConsts rewrites constants whose declared type is a
+// typedef of a base type defined in another file to the base type itself
+// (known finding unused-import-typedef-const); it returns how many it changed.
+func retypeCrossFileBaseTypedefConsts(p *idl.Program) int {
+	n := 0
+	for _, f := range p.Files {
+		for _, d := range f.Defs {
+			if d.Kind != idl.KConst || d.Type.Ref == nil || d.Type.Ref.Kind != idl.KTypedef || !chainLeavesFile(d.Type, f) {
+				continue
+			}
+			ft := d.Type.Final()
+			if ft.Ref == nil && ft.Key == nil && ft.Elem == nil {
+				d.Type = &idl.Type{Base: ft.Base}
+				n++
+			}
+		}
+		// the same finding: an enum from another file initialised by number
+		for _, d := range f.Defs {
+			if d.Kind != idl.KConst || d.Value == nil || d.Value.Kind != idl.VInt {
+				continue
+			}
+			ft := d.Type.Final()
+			if ft.Ref != nil && ft.Ref.Kind == idl.KEnum && (ft.Ref.File != f || (d.Type.Ref != nil && d.Type.Ref.File != f)) {
+				d.Type = &idl.Type{Base: "i32"}
+				n++
+			}
+		}
+	}
+	return n
+}
+
+// chainLeavesFile reports whether the typedef chain of t names a definition outside file f.
+func chainLeavesFile(t *idl.Type, f *idl.File) bool {
+	for t.Ref != nil {
+		if t.Ref.File != f {
+			return true
+		}
+		if t.Ref.Kind != idl.KTypedef {
+			break
+		}
+		t = t.Ref.Type
+	}
+	return false
+}
+
+func hasCrossFileExtends(p *idl.Program) bool {
+	for _, f := range p.Files {
+		for _, d := range f.Defs {
+			if d.Kind == idl.KService && d.Extends != nil && d.Extends.File != f {
+				return true
+			}
+		}
+	}
+	return false
+}
+
+func eachType(p *idl.Program, fn func(t *idl.Type)) {
+	var walk func(t *idl.Type)
+	walk = func(t *idl.Type) {
+		if t == nil {
+			return
+		}
+		fn(t)
+		walk(t.Key)
+		walk(t.Elem)
+	}
+	for _, f := range p.Files {
+		for _, d := range f.Defs {
+			walk(d.Type)
+			for _, fl := range d.Fields {
+				walk(fl.Type)
+			}
+			for _, fn := range d.Funcs {
+				walk(fn.Ret)
+				for _, a := range fn.Args {
+					walk(a.Type)
+				}
+				for _, a := range fn.Throws {
+					walk(a.Type)
+				}
+			}
+		}
+	}
+}
+
+func structLike(t *idl.Type) bool {
+	switch t.FinalCat() {
+	case "struct", "union", "exception":
+		return true
+	}
+	return false
+}
+
+func hasContainerOfStruct(p *idl.Program) bool {
+	found := false
+	eachType(p, func(t *idl.Type) {
+		ft := t.Final()
+		if ft.Elem != nil && structLike(ft.Elem) || ft.Key != nil && structLike(ft.Key) {
+			found = true
+		}
+	})
+	return found
+}
+
+// hasStructLiteralInContainer: a constant or default of container type whose elements are struct-like.
+func hasStructLiteralInContainer(p *idl.Program) bool {
+	found := false
+	var walk func(t *idl.Type, v *idl.Value)
+	walk = func(t *idl.Type, v *idl.Value) {
+		if t == nil || v == nil {
+			return
+		}
+		ft := t.Final()
+		switch ft.Base {
+		case "list", "set", "map":
+			if (v.Kind == idl.VList || v.Kind == idl.VMap) && len(v.List) > 0 {
+				if structLike(ft.Elem) || (ft.Key != nil && structLike(ft.Key)) {
+					found = true
+				}
+				for i, e := range v.List {
+					walk(ft.Elem, e)
+					if ft.Key != nil && i < len(v.Keys) {
+						walk(ft.Key, v.Keys[i])
+					}
+				}
+			}
+		default:
+			if ft.Ref != nil && ft.Ref.Kind.IsStructLike() && v.Kind == idl.VMap {
+				for i, e := range v.List {
+					name := v.Keys[i].Lit.Text()
+					for _, fl := range ft.Ref.Fields {
+						if fl.Name == name {
+							walk(fl.Type, e)
+						}
+					}
+				}
+			}
+		}
+		if v.Kind == idl.VIdent && v.RefConst != nil {
+			walk(v.RefConst.Type, v.RefConst.Value)
+		}
+	}
+	for _, f := range p.Files {
+		for _, d := range f.Defs {
+			walk(d.Type, d.Value)
+			for _, fl := range d.Fields {
+				walk(fl.Type, fl.Default)
+			}
+		}
+	}
+	return found
 }
 
 func hasOptFalse(opts []string, name string) bool {
